@@ -11,7 +11,8 @@
      object lists of ITS OWN document (Vars.ctx), because variable substitution is lexical;
    * "matching_source is master_object" is "the master occurrence at the index being processed";
    * the tmp marks of track_unused_definitions are the list of positions handed to
-     definition.fetch_value ("consumed"), threaded through the run. *)
+     definition.fetch_value ("consumed"), threaded through the run, plus the positions marked by
+     variable substitution while those definitions are resolved (var_marks). *)
 From Coq Require Import List Ascii String Bool Arith ZArith Lia.
 From Phil Require Import Base Tree Vars Choice.
 Import ListNotations.
@@ -375,9 +376,91 @@ Definition unused_of (marks0:pos -> option bool) (srcs:list lsrc) (consumed:list
                         | _ => false end)
               (all_defs_root srcs)).
 
-(* the marks set on variable-substitution sources (definition.resolve_variables:
-   "substitution_source.tmp = True") are not modelled: with a "$" anywhere in the sources the
-   unused list is reported as unmodelled (the result tree still is) *)
+(* ------------------------------------------------------------------ marks set by variable substitution *)
+(* definition.resolve_variables: "substitution_source.tmp = True" on every definition that supplies a
+   $variable, recursively (the source's own words are resolved in turn).  A run that ends in Ok has
+   resolved every consumed definition, so these marks are a function of the consumed definitions:
+   they are computed after the run, per consumed position.  The marked definition is identified by
+   its primary id inside its document (the lexical chain of a definition never leaves its document). *)
+Fixpoint marks_def (fuel:nat) (chain:ctx) (d:obj) : list nat :=
+  match fuel with
+  | 0 => []
+  | S f =>
+      flat_map
+        (fun w =>
+           if quote_eqb (wq w) Q1 then []
+           else match fragments_of_word w with
+                | Ok (_, frs) =>
+                    flat_map
+                      (fun fr =>
+                         match fr with
+                         | FLit _ => []
+                         | FVar v =>
+                             match (match chain with
+                                    | [] => Ok None
+                                    | _ => lexical_get (S (length v)) (oid d) chain v true
+                                    end) with
+                             | Ok (Some (o, ch)) => if is_def o then oid o :: marks_def f ch o else []
+                             | _ => []
+                             end
+                         end) frs
+                | _ => []
+                end)
+        (owords d)
+  end.
+
+(* the object at an index path below the object list [l] whose chain is [up], with its own chain *)
+Fixpoint obj_at (path:list nat) (l:list obj) (up:ctx) : option (obj * ctx) :=
+  match path with
+  | [] => None
+  | j :: rest =>
+      match nth_error l j with
+      | None => None
+      | Some o =>
+          match rest with
+          | [] => Some (o, l :: up)
+          | _ => match o with Scp _ ks _ => obj_at rest ks (l :: up) | Def _ _ _ => None end
+          end
+      end
+  end.
+
+(* index path of the first definition with primary id [id], depth first *)
+Fixpoint find_pos_obj (id:nat) (p:pos) (o:obj) : option pos :=
+  match o with
+  | Def h _ _ => if (opid h =? id)%nat then Some p else None
+  | Scp _ ks _ =>
+      (fix go (j:nat) (l:list obj) : option pos :=
+         match l with
+         | [] => None
+         | k :: r => match find_pos_obj id (p ++ [j]) k with Some x => Some x | None => go (S j) r end
+         end) 0 ks
+  end.
+Fixpoint find_pos_list (id:nat) (p:pos) (j:nat) (l:list obj) : option pos :=
+  match l with
+  | [] => None
+  | k :: r => match find_pos_obj id (p ++ [j]) k with Some x => Some x | None => find_pos_list id p (S j) r end
+  end.
+
+(* positions marked while resolving the consumed definition at position [p] *)
+Definition var_marks_at (srcs:list (list obj)) (p:pos) : list pos :=
+  match p with
+  | [] => []
+  | i :: path =>
+      match nth_error srcs i with
+      | None => []
+      | Some t =>
+          match obj_at path t [] with
+          | Some (d, chain) =>
+              flat_map (fun id => match find_pos_list id [i] 0 t with Some q => [q] | None => [] end)
+                       (marks_def (S (oid d)) chain d)
+          | None => []
+          end
+      end
+  end.
+Definition var_marks (srcs:list (list obj)) (consumed:list pos) : list pos :=
+  flat_map (var_marks_at srcs) consumed.
+
+(* "$" anywhere in the sources (used by the theorems: without it var_marks is empty) *)
 Definition word_has_dollar (w:word) : bool := mem "$" (wv w).
 Fixpoint obj_has_dollar (o:obj) : bool :=
   match o with
@@ -388,15 +471,13 @@ Fixpoint obj_has_dollar (o:obj) : bool :=
 Definition srcs_have_dollar (srcs:list (list obj)) : bool :=
   existsb (existsb obj_has_dollar) srcs.
 
-Inductive unused_out := UList (l:list (str * nat)) | UUnmodelled.
-
 (* master.fetch(sources=srcs, track_unused_definitions=True, diff=diff) starting from marks
    [marks0] on the source definitions *)
 Definition fetch_track_marks (env:str -> option str) (canon:obj -> option obj -> res str) (diff:bool)
-           (marks0:pos -> option bool) (m:list obj) (srcs:list (list obj)) : res (list obj * unused_out) :=
+           (marks0:pos -> option bool) (m:list obj) (srcs:list (list obj))
+  : res (list obj * list (str * nat)) :=
   do oc <- fetch_root env canon diff m srcs;
-  Ok (fst oc, if srcs_have_dollar srcs then UUnmodelled
-              else UList (unused_of marks0 (root_lsrcs srcs) (snd oc))).
+  Ok (fst oc, unused_of marks0 (root_lsrcs srcs) (snd oc ++ var_marks srcs (snd oc))).
 
 (* freshly parsed sources: tmp = None everywhere *)
 Definition fetch_track env canon diff m srcs := fetch_track_marks env canon diff (fun _ => None) m srcs.
